@@ -26,6 +26,12 @@ def run():
     for paths, probs in res3:
         for why in probs[:1]:
             c.findings.append(Finding("bounded", "shared_configuration", why, {"files": paths, "observed": probs}, paths[0]))
+    res4 = corpus.pmap(cli.c15_filelist_case, jobs, chunksize=1)
+    c.bounded["file_list_settings_follow_the_file"] = {"evaluations": len(res4) * 8, "distinct_nontrivial": len(res4), "rule": "real CLI, a file_list whose first and last entry disable (for that file only) a rule that reports on it: the JSON entry of each of the two files is the same whether the files come from the file_list alone or from -f in five different orders / subsets, and the disabled rule is silent for it"}
+    for paths, probs in res4:
+        for why in probs[:1]:
+            c.findings.append(Finding("bounded", "file_list_order", why, {"files": paths, "observed": probs}, paths[0]))
+    cli.option_leak_part(c, Finding, corpus)
     res2 = corpus.pmap(cli.c15_state_case, jobs, chunksize=1)
     c.bounded["shared_state"] = {"evaluations": len(res2) * 8, "distinct_nontrivial": len(res2), "rule": "in-process frame contract on the real apply_rules: fingerprint of every module-level and class-level mutable container of vsg.* equal before/after processing a file that ends inside open vsg_off / translate_off / vhdl_comp_off / delimited-comment regions, and the results of 3 corpus files equal before and after"}
     for paths, probs in res2:
